@@ -47,7 +47,7 @@ func synNullable(e *Expr) bool {
 	switch e.Op {
 	case OpRune, OpKw:
 		return false
-	case OpEmpty, OpOpt, OpMany, OpSepBy, OpNT, OpEnd:
+	case OpEmpty, OpOpt, OpMany, OpSepBy, OpNT, OpEnd, OpMark:
 		return true
 	case OpLTrim, OpRTrim, OpSingle, OpSuppress:
 		return synNullable(e.Kids[0])
@@ -276,11 +276,25 @@ func MutualLR(r *rand.Rand) *Grammar {
 // zero-width alternative first (Any(ε, x)), last (Optional, Any(x, ε)), in the middle, several zero-width entries,
 // repetitions that may match nothing, two nullable elements in a row. The recursive call follows the prefix directly;
 // a suffix may be absent, which makes the grammar cyclic (P => P): then only end positions are claimed.
-func HiddenLR(r *rand.Rand) *Grammar {
+func HiddenLR(r *rand.Rand) *Grammar { return HiddenLRWith(r, false) }
+
+// HiddenLRWith: with marks, a third of the nullable prefixes are (or contain) a hand-written zero-width parser that
+// returns a marker node of the user's own with Pos() == NilPos (OpMark)
+func HiddenLRWith(r *rand.Rand, marks bool) *Grammar {
 	n := 1 + r.Intn(2)
 	g := New("abx", n)
 	rn := func() *Expr { return g.Rune(g.Alpha[r.Intn(len(g.Alpha))]) }
 	nullable := func() *Expr {
+		if marks && r.Intn(3) == 0 {
+			switch r.Intn(3) {
+			case 0:
+				return g.Mk(OpMark)
+			case 1:
+				return g.Mk(OpAny, g.Mk(OpMark), rn())
+			default:
+				return g.Mk(OpSeqOf, g.Mk(OpMark), g.Mk(OpOpt, rn()))
+			}
+		}
 		switch r.Intn(9) {
 		case 0:
 			return g.Mk(OpOpt, rn())
@@ -439,7 +453,7 @@ func (g *Grammar) Sample(r *rand.Rand, e *Expr, depth int, out *[]byte, maxLen i
 	case OpKw:
 		*out = append(*out, e.S...)
 		return true
-	case OpEmpty, OpEnd:
+	case OpEmpty, OpEnd, OpMark:
 		return true
 	case OpNT:
 		return g.Sample(r, g.NTs[e.NT], depth+1, out, maxLen)
@@ -750,6 +764,11 @@ func Sharing(r *rand.Rand, o SharingOpts) *Grammar {
 		n := 13
 		if o.Trims {
 			n = 16
+		}
+		if r.Intn(9) == 0 {
+			// a sequence with a result handler of the user's own that hands back the first matched node - the producer's
+			// (cached) node - although the match went on: nobody may move that node's end to the end of the match
+			return g.Mk(OpSeqPickFirst, m(), leaf())
 		}
 		if r.Intn(6) == 0 {
 			// one Optional over the producer, extended by a consumer of its own: several of these in one grammar are
